@@ -414,7 +414,7 @@ def run_property(pid, units, obs, tier, seed, level_text, trusted_base, extra_as
             'violations': len(violations),
         }
         os.makedirs(os.path.join(VERIF, 'evidence'), exist_ok=True)
-        with open(os.path.join(VERIF, 'evidence', pid + '.json'), 'w') as f:
+        with open(os.path.join(VERIF, 'evidence', pid + os.environ.get('VERIF_EVIDENCE_SUFFIX', '') + '.json'), 'w') as f:
             json.dump(ev, f, indent=1)
         log('%s %s: %d obligations, %d discharged, %d undecided, %d errors, %d violations, %d known; %.0fs' %
             (pid, tier, n, disc, sum(1 for r in results if r['status'] == 'undecided'), len(errors), len(violations), len(knownhits), time.time() - t0))
